@@ -20,6 +20,9 @@ import (
 //verif:harness VerifC01_Pairs quick.maxpaths=60000 thorough.maxpaths=300000 timeout=2400
 //verif:harness VerifC01_RawTextParents quick.maxpaths=30000 thorough.maxpaths=200000 timeout=1500
 
+// a string value whose Go type is not string
+type zzC01Named string
+
 const zzC01Hostile = "<>&\"';#{}/ a"
 
 var zzC01Sinks = []string{
@@ -50,6 +53,8 @@ var zzC01Sinks = []string{
 	/* 24 */ `<p v-text="val" v-show="no"></p><p v-text="val" v-show="ok" class="{{ w }}"></p>`,
 	/* 25 */ `<p v-text="val" :title="val" v-show="no" data-w="{{ w }}"></p>`,
 	/* 26 */ `<ul><li v-for="it in items" v-text="it" v-show="no"></li></ul><q v-if="ok" v-text="val" v-show="no"></q>`,
+	/* 27 */ `<p v-text="val | escape"></p><p v-text="named | escape"></p><p v-text="named"></p><p>{{ named }}</p>`,
+	/* 28 */ `<p v-text="items | escape"></p><p v-text="items"></p><p :title="items">{{ items }}</p><p v-text="boxed | escape"></p>`,
 }
 
 func zzC01FS() *zzFS {
@@ -64,7 +69,8 @@ func zzC01FS() *zzFS {
 }
 
 func zzC01Render(entry, k int, val string) (string, error) {
-	data := map[string]any{"val": val, "ok": true, "no": false, "items": []string{val, "w"}, "k": "QQQ", "w": "word"}
+	data := map[string]any{"val": val, "ok": true, "no": false, "items": []string{val, "w"}, "k": "QQQ", "w": "word",
+		"named": zzC01Named(val), "boxed": map[string]any{"v": val}}
 	return zzRenderVia(entry, zzC01FS(), nil, zzC01Sinks[k], data)
 }
 
